@@ -174,8 +174,12 @@ def mon_c13(tr):
             last_probe_k = s["k"]
             polled_since_probe = False
         i += 1
-    if "result" in tr and tr["result"]["msg_id"] == 3 and not (tr["result"]["mesh_size"] < initd[0][2]["tol_mesh_state"]):
-        return ("tolmesh-msg", f"stopped by tol_mesh but final mesh {tr['result']['mesh_size']} >= {initd[0][2]['tol_mesh_state']}")
+    tol_user = float(o0["tol_mesh"])
+    if "result" in tr and tr["result"]["msg_id"] == 3 and not (tr["result"]["mesh_size"] < tol_user):
+        return ("tolmesh-msg", f"stopped by tol_mesh but final mesh {tr['result']['mesh_size']} >= tol_mesh {tol_user}")
+    ts = initd[0][2]["tol_mesh_state"]
+    if not (ts / 2 < tol_user <= ts):
+        return ("tolmesh-snap", f"internal mesh tolerance {ts} is not the least power of two >= tol_mesh {tol_user}")
     return None
 
 
